@@ -898,13 +898,24 @@ def root_count(ctx, col):
     from ..fold import Folder, Unfoldable
     repo = ctx.repo
     d = repo.get_def("swcgeom.utils.solid_geometry.find_sphere_line_intersection")
-    want = {-1.0: 0, 0.0: 1, 1e-12: 2, 1.0: 2}
+    want = {-1.0: 0, -1e-9: 0, 0.0: 1, 1e-12: 2, 1e-9: 2, 1.0: 2}
+    # tolerances the tests are written with: keyword defaults and constants bound once in the function
+    consts = {}
+    a_ = d.node.args
+    pos_ = a_.posonlyargs + a_.args
+    for prm, dv in list(zip(pos_[len(pos_) - len(a_.defaults):], a_.defaults)) + [(k, v) for k, v in zip(a_.kwonlyargs, a_.kw_defaults) if v is not None]:
+        if isinstance(dv, ast.Constant) and isinstance(dv.value, (int, float)) and not isinstance(dv.value, bool):
+            consts[prm.arg] = dv.value
+    for st_ in d.node.body:
+        if isinstance(st_, ast.Assign) and len(st_.targets) == 1 and isinstance(st_.targets[0], ast.Name) and isinstance(st_.value, ast.Constant) \
+                and isinstance(st_.value.value, (int, float)) and not isinstance(st_.value.value, bool):
+            consts[st_.targets[0].id] = st_.value.value
     for v, n_want in want.items():
         n_got, why = None, ""
         try:
             for st in d.node.body:
                 if isinstance(st, ast.If) and "discriminant" in {x.id for x in ast.walk(st.test) if isinstance(x, ast.Name)}:
-                    if bool(Folder(repo, d.module, None, {"discriminant": v}).eval(st.test)):
+                    if bool(Folder(repo, d.module, None, {**consts, "discriminant": v}).eval(st.test)):
                         ret = next((r for r in st.body if isinstance(r, ast.Return)), None)
                         if ret is None or not isinstance(ret.value, (ast.List, ast.Tuple)):
                             raise Unfoldable("the arm does not return a list display")
